@@ -60,3 +60,19 @@ def gen_basic(ctx):
                                f"{tlc.invariant_violated(r)} {r['error']}")
         out.append({"model": cls, "states": r["distinct"], "all_clauses_hold": True})
     return out
+
+
+def gen_binomial(ctx):
+    """GenBinomial: every resolution of the Bellman-optimal step choice is executable, clean and
+    takes the closed-form number of forward steps (design level, no code)."""
+    cfg = "GenBinomial.cfg" if ctx.tier == "quick" else "GenBinomial14.cfg"
+    r = tlc.run("GenBinomial", cfg=cfg, timeout=1200, workers=12)
+    ctx.add_run("GenBinomial/" + cfg, r)
+    if not r["ok"]:
+        raise fw.Machinery(f"the binomial generator model fails at design level ({cfg}): "
+                           f"{tlc.invariant_violated(r)} {r['error']}")
+    rr = tlc.run("GenBinomial", cfg="GenBinomialReach.cfg", timeout=300, workers=4)
+    ctx.add_run("GenBinomial/reach", rr)
+    if tlc.invariant_violated(rr) is None:
+        raise fw.Machinery("vacuity: the binomial generator model never reaches its end")
+    return {"cfg": cfg, "states": r["distinct"], "all_clauses_hold": True, "optimal_steps": True}
